@@ -23,6 +23,10 @@ def main():
         srcroot = sys.argv[sys.argv.index('--src') + 1]
     src = '%s/%s' % (srcroot, pid)
     patch = os.path.join(src, 'patch_%s.diff' % k)
+    ported = None
+    if '--patch' in sys.argv:     # the change re-applied by hand to the current tree (later fix / hook commits moved the context)
+        ported = patch
+        patch = sys.argv[sys.argv.index('--patch') + 1]
     demo = os.path.join(src, 'demo_%s_test.go' % k)
     name = '%s-%s' % (pid, k)
     if '--name' in sys.argv:
@@ -33,6 +37,10 @@ def main():
     sh('git -C /repo worktree remove --force %s' % wt)
     rc, o = sh('git -C /repo worktree add -q --detach %s HEAD' % wt)
     meta = {'id': name, 'property': pid, 'source': 'sub-agent given only the property text and a scratch worktree', 'ran': []}
+    if ported:
+        meta['ported'] = 'the original patch (original.diff) no longer applies to the tree with the verif hooks; patch.diff is the same change re-applied by hand, the hook call kept next to the tree access it reports'
+        os.makedirs(out, exist_ok=True)
+        shutil.copy(ported, os.path.join(out, 'original.diff'))
     try:
         # demo location / command from its header comment
         head = open(demo, errors='replace').read()[:3000]
@@ -58,6 +66,8 @@ def main():
         os.remove(dst)
         # 2. apply
         rc, o = sh('git apply %s' % patch, cwd=wt)
+        if rc != 0:   # the tree has moved on since the change was written (later fix / hook commits): accept reduced context
+            rc, o = sh('git apply -C1 %s || patch -p1 --fuzz=3 -i %s' % (patch, patch), cwd=wt)
         meta['applies'] = rc == 0
         if rc != 0:
             meta['error'] = o[-500:]
